@@ -14,6 +14,14 @@ CHECKS = {
             "invariant monitor on emitted artefacts (bytecode verifier run at the quiescent point after Compiler.Bytecode() and after RemoveDuplicates) cross-validated by a VM-probe assertion on every dispatched instruction",
             "Every function (main, nested literals, closures, source modules; called or not) of every generated program is decoded and checked: instruction boundaries, jump targets, constant/local/free/builtin/global operands, CLOSURE targets and free counts, one non-negative operand-stack height per instruction along all paths, RET/SUSPEND heights, no fall-through. The program is then run; at every dispatch the probe asserts that ip is an instruction start and that sp-base-NumLocals equals the verifier's height, a clean run must leave the stack empty and no error may be an internal fault. Boundary probes require a compile error beyond each static limit. Held on the programs listed in evidence; programs nobody generated are not covered.",
             "Trusted: parser.OpcodeOperands for decoding (cross-checked by the probe: a wrong width derails the height assertion), the stack-effect table (validated against the machine at run time)."),
+    "C04": ("exploration",
+            "hostile-input runtime monitor: recover around every public entry point, driver-side watchdog for non-termination, independent line-table check of every reported error position",
+            "Valid generated programs, token-level mutations of them over the full token alphabet (every keyword and builtin name in every position), raw bytes and directed probes are fed to parser.ParseFile, File.String, Compiler.Compile+Bytecode+RemoveDuplicates, Script.Compile under random configurations (module maps incl. the input as its own module, 0/3/1000/1030 predeclared variables, file import, const-object limit) and as a module body. A panic or a watchdog firing is a violation; every position in a returned ErrorList/CompilerError is recomputed from an independent line table. Held on the inputs listed in evidence.",
+            "Inputs <= 64 KiB. Non-termination = 90 s without progress on a case that normally takes milliseconds."),
+    "C10": ("exploration",
+            "algebraic-law runtime monitor over results of one compiled probe script run by the real VM for all ordered pairs of a boundary value pool plus random nested values; independent truthiness and conversion tables",
+            "For each pair (a, b) the script evaluates ==, !=, <, <=, >, >= in both operand orders, six ways of observing truthiness, copy and the conversion builtins with and without default. The monitor checks symmetry, negation, converse, trichotomy and <=/>= consistency for same-ordered-type and int/float pairs, int/char ordering by code point without equality, the documented falsiness table, structural equality and state independence of copy (all mutable positions of copy and original are overwritten), and the documented conversion table. Held on the pairs listed in evidence.",
+            "Trusted: the independent tables in the harness (docs/runtime-types.md, docs/builtins.md). Identity-equality types (error, functions) are compared by payload."),
     "C11": ("exploration",
             "metamorphic runtime monitor: each program and its scope-moving transformations (into a function, into a module, sub-expressions into immediately-invoked literals, consistent renaming, compositions) are run by the real engine and compared; reference interpreter as additional oracle for the base program; VM probe proves all three instruction families were exercised",
             "For every generated closure-heavy program P up to 10 variants T(P) are produced textually from the parser's positions; P and each T(P) run through Script.Compile/RunContext and must give the same values for P's top-level variables or the same error message and line. P is also compared with the reference interpreter. Held on the (program, transformation) pairs listed in evidence.",
